@@ -144,6 +144,23 @@ def search_pose(seed, n, classes=None, methods=None, thresh=2e-6):
                     if near_wrap(*angs):
                         stats["skipped_near_wrap"] += 1
                         continue
+                if mname.endswith("_compact"):
+                    pairs = [(a, b)]
+                    if kind == "pose":
+                        base = np.array([rng.sign() * rng.logu(1e5, 1e7) for _ in range(len(np.asarray(a.position)))])
+                        def far(p):
+                            v = flat(p).copy()
+                            v[: len(base)] = base + v[: len(base)] * 0.1
+                            return type(p)(v[:2], v[2]) if isinstance(p, PoseSE2) else type(p)(v[:3], v[3:]) if isinstance(p, PoseSE3) else type(p)(v)
+                        pairs.append((far(a), far(b)))
+                    for aa, bb in pairs:
+                        full = np.asarray(getattr(aa, mname[: -len("_compact")])(bb) if bb is not None else getattr(aa, mname[: -len("_compact")])())
+                        comp = np.asarray(getattr(aa, mname)(bb) if bb is not None else getattr(aa, mname)())
+                        rows = full[: comp.shape[0]] if comp.ndim == 2 and full.ndim == 2 else full
+                        stats["compact_row_checks"] = stats.get("compact_row_checks", 0) + 1
+                        if comp.shape != rows.shape or not np.allclose(comp, rows, rtol=1e-12, atol=1e-12 * (1.0 + float(np.max(np.abs(rows), initial=0.0)))):
+                            return dict(kind="pose_jacobian", cls=cname, method=mname, self=flat(aa).tolist(), other=(flat(bb).tolist() if bb is not None else None), entry=[0, 0], analytic=comp.tolist(), numeric=rows.tolist(),
+                                        deviation=float(np.max(np.abs(comp - rows))) if comp.shape == rows.shape else float("inf"), shape_analytic=list(comp.shape), shape_numeric=list(rows.shape), what="the _compact variant is not the compact-coordinate rows of the full Jacobian"), stats
                 dev, scale, ana, num = check_pose_method(cname, mname, a, b)
                 stats["evaluations"] += 1
                 if not dev <= thresh * scale * (1 + float(np.max(np.abs(flat(a)))) + (float(np.max(np.abs(flat(b)))) if b is not None else 0.0)):
@@ -155,6 +172,9 @@ def search_pose(seed, n, classes=None, methods=None, thresh=2e-6):
 def make_edge(kind, T, rng, mild=False):
     if kind == "odometry":
         z, p0, p1 = rand_pose(rng, T, mild), rand_pose(rng, T, mild), rand_pose(rng, T, mild)
+        # special measurements: exactly the identity ("no motion" constraints, loop closures at the same place)
+        if rng.random() < 0.12:
+            z = CLS[T].identity()
         n = p0.COMPACT_DIMENSIONALITY
         e = EdgeOdometry([0, 1], np.eye(n), z, [Vertex(0, p0), Vertex(1, p1)])
     else:
@@ -231,6 +251,16 @@ def search_edges(seed, n, thresh=2e-6):
                     if kind == "odometry" and T == "PoseSE2" and near_wrap(e.calc_error()[2]):
                         stats["skipped_near_wrap"] += 1
                         continue
+                if k % 5 == 4:
+                    # history: a caller scaled / overwrote the Jacobians an EARLIER edge returned (robust-kernel weighting done
+                    # in place); what this edge reports must not depend on that
+                    e_prev = make_edge(kind, T, rng, mild=True)
+                    for Jp in e_prev.calc_jacobians():
+                        Jp = np.asarray(Jp)
+                        if Jp.flags.writeable:
+                            Jp *= 0.125
+                            Jp += 3.0
+                    stats["scribble_probes"] = stats.get("scribble_probes", 0) + 1
                 (dev, scale, vk, ana, num), err0 = check_edge(e)
                 stats["evaluations"] += 1
                 mag = 1.0 + max(float(np.max(np.abs(flat(v.pose)))) for v in e.vertices) + float(np.max(np.abs(flat(e.estimate))))
